@@ -414,6 +414,36 @@ def bio_list_tables(ctx, lib, rule, which=("var_list", "var_list_from_term", "re
                 ctx.ob(rule, "%s.reduction[%s]" % (q, c), want_ok, where=c_.where(), expected=exp, found=sorted(show(x) for x in got))
             # the list is what the acceptance conditions are restricted by, and grounded_internal runs on the result
         if not found:
+            # the same list as filter(..).map(..): keep exactly the false statements, pair each with `false`
+            for c_ in lib.closures_of(b, recursive=True):
+                parent = lib.body(c_.parent)
+                roles, pdefs = flow.closure_roles(parent)
+                r = roles.get(c_.path)
+                if r is None or r.adaptor != "map":
+                    continue
+                src, steps = r.receiver_chain()
+                if not (src[0] == "field" and src[2] == "vars"):
+                    src2 = subst_upvars(src, flow.resolve_captures(lib, parent) or [])
+                    if not (src2[0] == "field" and src2[2] == "vars"):
+                        continue
+                if [s_[0] for s_ in steps] != ["iter", "enumerate", "filter"] or not steps[2][1] or steps[2][1][0][0] != "closure":
+                    continue
+                found = True
+                n += 1
+                fcl = lib.body(steps[2][1][0][1])
+                ft, I, VARI = table_for(fcl, None, "term")
+                mt, I, VARI = table_for(c_, None, "term")
+                for c in shared.CLASSES:
+                    keep = ft[c] == {vbool(True)}
+                    drop = ft[c] == {vbool(False)}
+                    if c == "B":
+                        want_ok = keep and mt[c] == {("tuple", (VARI, vbool(False)))}
+                        exp = "kept and mapped to (vars[i], false)"
+                    else:
+                        want_ok = drop
+                        exp = "filtered out"
+                    ctx.ob(rule, "%s.reduction[%s]" % (q, c), want_ok, where=c_.where(), expected=exp, found="filter %s, map %s" % (sorted(show(x) for x in ft[c]), sorted(show(x) for x in mt[c])))
+        if not found:
             ctx.cannot(rule, q + ".reduction-closure", "a filter_map over self.vars building the reduction list", b.where(), None)
     return n
 
